@@ -4,8 +4,11 @@ import Nebula.Model.Counter
 namespace Nebula.Lemmas.Counter
 open Nebula.Counter
 
-theorem reject_toNat : reject.toNat = 18446742974197923839 := by decide
-theorem headroom_eq : headroom = 1099511627776 := by decide
+/-- The only fact about the two regenerated constants that the proofs use: the ceiling sits exactly
+`RejectHeadroom` below the top of `uint64` (`RejectAfterMessages = math.MaxUint64 - RejectHeadroom`).
+It is evaluated on the constants as regenerated from the source, so a changed headroom that keeps
+this relation re-proves everything. -/
+theorem reject_add_headroom : reject.toNat + headroom = 2 ^ 64 - 1 := by decide
 
 /-- the headroom hypothesis: in every state reached along the schedule, fewer than `RejectHeadroom`
 `Add`s have happened since the counter was last below the ceiling or pinned to it. -/
@@ -32,7 +35,7 @@ structure Inv (ctr0 : U64) (s : State) : Prop where
 theorem inv_init (ctr0 : U64) (h0 : ctr0 ≤ reject) : Inv ctr0 (init ctr0) := by
   refine ⟨BitVec.le_refl _, ?_, by simp [init], by simp [init], by simp [init], by simp [init]⟩
   intro h
-  have := reject_toNat
+  have := reject_add_headroom
   simp only [init] at *
   bv_omega
 
@@ -90,8 +93,7 @@ theorem emitted_fin_cases (s : State) (t : Nat) :
 
 theorem step_inv {ctr0 : U64} (h0 : ctr0 ≤ reject) {s : State} (hi : Inv ctr0 s)
     (hp : s.past < headroom) (st : Step) : Inv ctr0 (step s st) := by
-  have hr := reject_toNat
-  have hh := headroom_eq
+  have hsum := reject_add_headroom
   obtain ⟨lo, past, em, nodup, pd, inj⟩ := hi
   cases st with
   | add ctl t =>
@@ -239,8 +241,7 @@ theorem locked_pair_inv {ctr0 : U64} (h0 : ctr0 ≤ reject) {s : State} (hi : LI
     intro a ha
     have h1 := (hi.inv.em a ha).2.2
     have : s.ctr.toNat + 1 < 2 ^ 64 := by
-      have hr := reject_toNat
-      have hh := headroom_eq
+      have hsum := reject_add_headroom
       by_cases hc : reject ≤ s.ctr
       · have := hi.inv.past hc; omega
       · have : s.ctr.toNat < reject.toNat := by bv_omega
